@@ -212,36 +212,137 @@ def samples(traces, n):
 
 
 def accumulate_nontrivial(stats, t):
+    """one pass over a recorded trace: judged steps, distinct non-trivial step kinds, and how often the situations the
+    clauses talk about actually occurred (vacuity guard, evidence key 'exercised')"""
+    ex = stats.setdefault("exercised", {})
+
+    def bump(k, n=1):
+        ex[k] = ex.get(k, 0) + n
     prev = None
     for line in open(t):
         r = json.loads(line)
-        if r["i"] > 0 and r.get("judge", True):
-            stats["evaluations"] += 1
-            a = r["act"]
-            tid = a.get("id", None)
-            pre_st = post_st = None
-            if prev is not None and isinstance(tid, int) and 0 <= tid < len(prev["st"]["auctions"]):
-                pre_st = prev["st"]["auctions"][tid]["status"]
-                post_st = r["st"]["auctions"][tid]["status"]
-            if prev is not None and prev["st"] != r["st"]:
-                stats["seen"].add((a["a"], r["res"]["ok"], pre_st, post_st, a.get("type"), len(r["xfers"])))
-        prev = r if r["i"] > 0 or True else None
+        if r["i"] == 0:
+            prev = r
+            continue
+        if not r.get("judge", True):
+            prev = r
+            continue
+        stats["evaluations"] += 1
+        a = r["act"]
+        ok = r["res"]["ok"]
+        kind = a["a"]
+        bump("%s_%s" % (kind, "ok" if ok else "rejected"))
+        tid = a.get("id", None)
+        pre_st = post_st = None
+        if prev is not None and isinstance(tid, int) and 0 <= tid < len(prev["st"]["auctions"]) and tid < len(r["st"]["auctions"]):
+            pre_st = prev["st"]["auctions"][tid]["status"]
+            post_st = r["st"]["auctions"][tid]["status"]
+        if prev is not None and prev["st"] != r["st"]:
+            stats["seen"].add((kind, ok, pre_st, post_st, a.get("type"), len(r["xfers"])))
+        if a.get("hookFail") and not ok:
+            bump("hook_veto")
+        if r.get("hooks"):
+            bump("steps_with_listener_calls")
+        if r.get("rep", 1) > 1:
+            bump("replica_steps")
+        if kind == "Block" and prev is not None:
+            if a.get("fault", 0) > 0 and a["fault"] <= r["extra"]["nx"]:
+                bump("block_fault_hit")
+            pa, qa = prev["st"]["auctions"], r["st"]["auctions"]
+            settled = 0
+            for i, x in enumerate(pa):
+                if i >= len(qa):
+                    break
+                y = qa[i]
+                if x["status"] == "StandBy" and y["status"] == "Started":
+                    bump("opened")
+                if x["status"] == "Started" and y["status"] in ("Vesting", "Finished"):
+                    settled += 1
+                    nb = len(prev["st"]["bids"][i])
+                    bidders = {b["bidder"] for b in prev["st"]["bids"][i]}
+                    winners = {b["bidder"] for b in r["st"]["bids"][i] if b["matched"]}
+                    bump("settled_%s" % ("batch" if x["type"] == "B" else "fixed"))
+                    if nb >= 2:
+                        bump("settled_with_2plus_bids")
+                    if len(winners) >= 2:
+                        bump("settled_with_2plus_winners")
+                    if bidders - winners:
+                        bump("settled_with_loser")
+                    if x["type"] == "B" and len(x["ends"]) > 1:
+                        bump("settled_after_extension")
+                    if x["type"] == "B" and len(x["ends"]) < x["maxExt"] + 1 and prev["st"]["lastMatched"][i] > 0:
+                        bump("settled_by_rate_rule")
+                    if y["status"] == "Vesting":
+                        bump("vesting_created")
+                    if x["type"] == "B" and y["matchedPrice"] > 0:
+                        bump("batch_sold")
+                if x["status"] == "Started" and y["status"] == "Started" and len(y["ends"]) > len(x["ends"]):
+                    bump("extended")
+                    if prev["st"]["lastMatched"][i] > 0:
+                        bump("extended_by_rate_rule")
+                if x["status"] == "Vesting":
+                    rel = sum(1 for k, v in enumerate(r["st"]["vqs"][i]) if v["released"] and not prev["st"]["vqs"][i][k]["released"])
+                    if rel:
+                        bump("instalments_released", rel)
+                    if rel >= 2:
+                        bump("block_skipping_release_times")
+                    if y["status"] == "Finished":
+                        bump("vesting_finished")
+            if settled >= 2:
+                bump("two_auctions_settled_in_one_block")
+            if any(x["status"] in ("Finished", "Cancelled") for x in pa):
+                bump("block_with_terminal_auction")
+        if kind == "Genesis":
+            bump("genesis_with_%d_auctions" % min(2, len(r["st"]["auctions"])))
+        if kind == "Donate" and ok:
+            bump("donation")
+        if kind == "Cancel" and ok and prev is not None and any(v > 0 for e, d in prev["st"]["bal"].items() if e.startswith("sell.") for v in [d.get(prev["st"]["auctions"][tid]["sellDenom"], 0) - prev["st"]["auctions"][tid]["sellAmt"]] if e == "sell.%d" % tid):
+            bump("cancel_with_donation_in_escrow")
+        prev = r
 
 
 def count_nontrivial(prop, traces, extra=None):
     """evaluations = judged real-code steps; distinct_nontrivial = distinct (action kind, accepted?, status of the target
     auction before, after, bid type, number of bank transfers) combinations among state-changing judged steps."""
-    stats = {"evaluations": 0, "seen": set()}
+    stats = {"evaluations": 0, "seen": set(), "exercised": {}}
     for t in traces:
         if os.path.exists(t):
             accumulate_nontrivial(stats, t)
     if extra:
         stats["evaluations"] += extra["evaluations"]
         stats["seen"] |= extra["seen"]
+        for k, v in extra.get("exercised", {}).items():
+            stats["exercised"][k] = stats["exercised"].get(k, 0) + v
     return {"evaluations": stats["evaluations"], "distinct_nontrivial": len(stats["seen"]),
+            "exercised": dict(sorted(stats["exercised"].items())),
             "rule": "evaluations = real-code steps replayed and judged by the monitor; distinct_nontrivial = distinct "
                     "(action, accepted, target status before, after, bid type, number of bank transfers) tuples among "
                     "state-changing judged steps"}
+
+
+# vacuity guard: situations that must have occurred at least once in the real-code traces of a run of the property's check;
+# otherwise the run says nothing about the property and is reported as broken (exit 2), never as "held"
+REQUIRED = {
+    "C01": ["Bid_ok", "settled_batch", "settled_fixed", "vesting_created", "instalments_released"],
+    "C02": ["Bid_ok", "settled_batch", "settled_with_loser", "vesting_finished", "Cancel_ok"],
+    "C03": ["batch_sold", "settled_with_2plus_bids", "settled_with_loser"],
+    "C04": ["batch_sold", "settled_fixed", "Modify_ok"],
+    "C05": ["settled_batch", "settled_fixed", "UpdateAllowed_ok"],
+    "C06": ["settled_fixed", "Bid_ok", "Bid_rejected"],
+    "C07": ["block_with_terminal_auction", "block_fault_hit", "settled_batch"],
+    "C08": ["opened", "settled_batch", "settled_fixed", "vesting_finished", "Cancel_ok", "extended"],
+    "C09": ["vesting_created", "instalments_released", "vesting_finished"],
+    "C10": ["MsgAddAllowed_rejected", "Bid_ok", "AddAllowed_ok"],
+    "C11": ["Modify_ok", "Modify_rejected"],
+    "C12": ["Cancel_ok", "Cancel_rejected"],
+    "C13": ["extended", "settled_after_extension", "extended_by_rate_rule", "settled_by_rate_rule"],
+    "C14": ["replica_steps", "settled_with_2plus_winners"],
+    "C15": ["Genesis_ok", "genesis_with_2_auctions"],
+    "C16": ["Query_ok", "batch_sold", "settled_after_extension"],
+    "C17": ["hook_veto", "steps_with_listener_calls"],
+    "C18": ["Bid_rejected", "CreateFixed_rejected", "CreateBatch_rejected", "Modify_rejected", "Cancel_rejected"],
+    "C19": ["two_auctions_settled_in_one_block", "Bid_ok"],
+}
 
 
 def when_matches(when, step, pre):
